@@ -265,3 +265,48 @@ func Discharge(em *Emitter, obls []*Obligation, dir string, timeout int, workers
 	}
 	wg.Wait()
 }
+
+// Stability re-runs discharged obligations under several solver seeds; a proof that depends on the seed is brittle.
+func Stability(em *Emitter, obls []*Obligation, dir string, seeds int, workers int) {
+	var wg sync.WaitGroup
+	sem := make(chan struct{}, workers)
+	var mu sync.Mutex
+	unstable := 0
+	for i, o := range obls {
+		if o.Verdict != "DISCHARGED" || o.Kind == "cover" {
+			continue
+		}
+		wg.Add(1)
+		sem <- struct{}{}
+		go func(i int, o *Obligation) {
+			defer wg.Done()
+			defer func() { <-sem }()
+			file := filepath.Join(dir, fmt.Sprintf("st_%05d.smt2", i))
+			os.WriteFile(file, []byte(em.Script(o)), 0o644)
+			defer os.Remove(file)
+			fails := 0
+			worst := 0.0
+			for sd := 1; sd <= seeds; sd++ {
+				t0 := time.Now()
+				c, cancel := context.WithTimeout(context.Background(), 12*time.Second)
+				out, _ := exec.CommandContext(c, "z3-new", "-T:10", fmt.Sprintf("smt.random_seed=%d", sd), fmt.Sprintf("sat.random_seed=%d", sd), file).CombinedOutput()
+				cancel()
+				d := time.Since(t0).Seconds()
+				if d > worst {
+					worst = d
+				}
+				if !strings.HasPrefix(strings.TrimSpace(string(out)), "unsat") {
+					fails++
+				}
+			}
+			if fails > 0 || worst > 3 {
+				mu.Lock()
+				unstable++
+				fmt.Printf("UNSTABLE %s: %d/%d seeds failed, worst %.1fs  [%s]\n", o.Name, fails, seeds, worst, o.Text)
+				mu.Unlock()
+			}
+		}(i, o)
+	}
+	wg.Wait()
+	fmt.Printf("stability: %d unstable obligations\n", unstable)
+}
